@@ -155,39 +155,56 @@ impl Workspace {
         label: impl Into<String>,
         files: &[PathBuf],
     ) -> io::Result<Checkpoint> {
+        validate_store_component(session_id)?;
+        // Resolve every path against the workspace root and refuse escapes before any side effect.
+        let mut resolved = Vec::with_capacity(files.len());
+        for path in files {
+            let rel = self.to_relative(path)?;
+            let source = self.root.join(&rel);
+            resolved.push((rel, source));
+        }
+
         let checkpoint_id = Uuid::new_v4().to_string();
         let label = label.into();
         let created_at_ms = now_ms();
         let checkpoint_root = self.checkpoints_dir.join(session_id).join(&checkpoint_id);
         let files_root = checkpoint_root.join("files");
-        fs::create_dir_all(&files_root)?;
 
-        let mut entries = Vec::new();
-
-        for path in files {
-            let rel = self.to_relative(path)?;
-            let dest = files_root.join(&rel);
-
-            if path.exists() {
-                if let Some(parent) = dest.parent() {
-                    fs::create_dir_all(parent)?;
+        let stored = (|| -> io::Result<Vec<CheckpointFile>> {
+            fs::create_dir_all(&files_root)?;
+            let mut entries = Vec::new();
+            for (rel, source) in &resolved {
+                let dest = files_root.join(rel);
+                if source.exists() {
+                    if let Some(parent) = dest.parent() {
+                        fs::create_dir_all(parent)?;
+                    }
+                    let bytes = fs::read(source)?;
+                    let hash = hash_bytes(&bytes);
+                    fs::write(&dest, &bytes)?;
+                    entries.push(CheckpointFile {
+                        path: rel.to_string_lossy().to_string(),
+                        exists: true,
+                        sha256: Some(hash),
+                    });
+                } else {
+                    entries.push(CheckpointFile {
+                        path: rel.to_string_lossy().to_string(),
+                        exists: false,
+                        sha256: None,
+                    });
                 }
-                let bytes = fs::read(path)?;
-                let hash = hash_bytes(&bytes);
-                fs::write(&dest, &bytes)?;
-                entries.push(CheckpointFile {
-                    path: rel.to_string_lossy().to_string(),
-                    exists: true,
-                    sha256: Some(hash),
-                });
-            } else {
-                entries.push(CheckpointFile {
-                    path: rel.to_string_lossy().to_string(),
-                    exists: false,
-                    sha256: None,
-                });
             }
-        }
+            Ok(entries)
+        })();
+        let entries = match stored {
+            Ok(entries) => entries,
+            Err(err) => {
+                // a checkpoint that could not be taken leaves nothing behind
+                let _ = fs::remove_dir_all(&checkpoint_root);
+                return Err(err);
+            }
+        };
 
         let checkpoint = Checkpoint {
             id: checkpoint_id,
@@ -228,11 +245,18 @@ impl Workspace {
     }
 
     pub fn rewind_to_checkpoint(&self, session_id: &str, checkpoint_id: &str) -> io::Result<()> {
+        validate_store_component(session_id)?;
+        validate_store_component(checkpoint_id)?;
         let checkpoint_root = self.checkpoints_dir.join(session_id).join(checkpoint_id);
         let metadata_path = checkpoint_root.join("checkpoint.json");
         let payload = fs::read(&metadata_path)?;
         let checkpoint: Checkpoint = serde_json::from_slice(&payload)
             .map_err(|err| io::Error::new(io::ErrorKind::InvalidData, err))?;
+
+        // stored paths are workspace-relative; never follow one that would leave the root
+        for file in &checkpoint.files {
+            self.to_relative(Path::new(&file.path))?;
+        }
 
         let mut undo = BTreeMap::new();
 
@@ -284,15 +308,36 @@ impl Workspace {
         Ok(())
     }
 
+    /// Workspace-relative form of `path` (absolute paths must lie inside the root); `.` is dropped,
+    /// `..` and paths that name the root itself are refused.
     fn to_relative(&self, path: &Path) -> io::Result<PathBuf> {
-        let abs = if path.is_absolute() {
-            path.to_path_buf()
+        let rel = if path.is_absolute() {
+            path.strip_prefix(&self.root).map_err(|_| {
+                io::Error::new(io::ErrorKind::InvalidInput, "path outside workspace")
+            })?
         } else {
-            self.root.join(path)
+            path
         };
-        abs.strip_prefix(&self.root)
-            .map(|p| p.to_path_buf())
-            .map_err(|_| io::Error::new(io::ErrorKind::InvalidInput, "path outside workspace"))
+        let mut clean = PathBuf::new();
+        for component in rel.components() {
+            match component {
+                Component::Normal(part) => clean.push(part),
+                Component::CurDir => {}
+                _ => {
+                    return Err(io::Error::new(
+                        io::ErrorKind::InvalidInput,
+                        "path escapes workspace root",
+                    ))
+                }
+            }
+        }
+        if clean.as_os_str().is_empty() {
+            return Err(io::Error::new(
+                io::ErrorKind::InvalidInput,
+                "path does not name a file inside the workspace",
+            ));
+        }
+        Ok(clean)
     }
 
     fn safe_join(&self, rel: &Path) -> io::Result<PathBuf> {
@@ -329,6 +374,18 @@ impl Workspace {
             }
         }
         Ok(())
+    }
+}
+
+/// Session and checkpoint ids are single directory names inside the checkpoint store.
+fn validate_store_component(value: &str) -> io::Result<()> {
+    let mut components = Path::new(value).components();
+    match (components.next(), components.next()) {
+        (Some(Component::Normal(_)), None) => Ok(()),
+        _ => Err(io::Error::new(
+            io::ErrorKind::InvalidInput,
+            "invalid session or checkpoint id",
+        )),
     }
 }
 
